@@ -112,6 +112,8 @@ pub fn run_case(rng: &mut Rng, maxops: u64) -> String {
         lossy: reclaim,
         thr: 1,
         reclaimers: 1,
+        reins: 0,
+        bsize: BLOCK,
         domain: "crash".into(),
         hmode: HMode::Id,
         keys: rng.range(2, 4),
